@@ -81,7 +81,8 @@ CtClass(f)  == CASE f = "right" -> "yes"
 
 Worst(a, b) == IF a = "no" \/ b = "no" THEN "no" ELSE IF a = "either" \/ b = "either" THEN "either" ELSE "yes"
 
-(* a request of the grammar: [route, method, cid, pid, ct, size, chunks] *)
+(* a request of the grammar: [route, method, cid, pid, ct, size, chunks, abort]
+   abort = the upload breaks in the middle of the body (transport error after the first chunk) *)
 Class(q) ==
   IF q.route = "index" /\ q.method = "GET" THEN "other"  \* the index page: served whatever the headers, changes nothing
   ELSE IF ~IsProto(q.route) THEN "no"                  \* unknown route
@@ -89,24 +90,26 @@ Class(q) ==
   ELSE Worst(CidClass(q.cid),
         Worst(IF HasPid(q.route) THEN PidClass(q.pid) ELSE "yes",
               IF HasBody(q.route)
-                THEN Worst(CtClass(q.ct), IF q.size = 0 \/ q.size > Limit THEN "no" ELSE "yes")
+                THEN Worst(CtClass(q.ct), IF q.size = 0 \/ q.size > Limit \/ q.abort THEN "no" ELSE "yes")
                 ELSE "yes"))
 
 Baseline(r) == [route |-> r, method |-> RouteMethod(r), cid |-> "valid", pid |-> "valid", ct |-> "right",
-                size |-> IF HasBody(r) THEN 20 ELSE 0, chunks |-> 1]
+                size |-> IF HasBody(r) THEN 20 ELSE 0, chunks |-> 1, abort |-> FALSE]
 
 Deviations(q) ==
   LET b == Baseline(q.route) IN
     (IF q.method # b.method THEN 1 ELSE 0) + (IF q.cid # b.cid THEN 1 ELSE 0) + (IF q.pid # b.pid THEN 1 ELSE 0)
   + (IF q.ct # b.ct THEN 1 ELSE 0) + (IF q.size # b.size THEN 1 ELSE 0) + (IF q.chunks # b.chunks THEN 1 ELSE 0)
+  + (IF q.abort THEN 1 ELSE 0)
 
 (* all requests that differ from the well-formed baseline of their route in at most `k` dimensions *)
 Grammar(k, sizes, chunkings) ==
   {q \in [route : Routes, method : Methods, cid : CidForms, pid : PidForms, ct : CtForms,
-          size : sizes, chunks : chunkings] :
+          size : sizes, chunks : chunkings, abort : BOOLEAN] :
      /\ Deviations(q) <= k
      /\ (~HasPid(q.route) => q.pid = "valid")          \* dimensions a route does not have are fixed
-     /\ (~HasBody(q.route) => q.ct = "right" /\ q.size = 0 /\ q.chunks = 1)
+     /\ (~HasBody(q.route) => q.ct = "right" /\ q.size = 0 /\ q.chunks = 1 /\ ~q.abort)
+     /\ (q.abort => q.size >= 3 /\ q.chunks = 1)
      /\ (q.size <= 1 => q.chunks = 1)}
 
 (* hg = grammar record as echoed in the trace (plus cls); h = http record *)
